@@ -63,10 +63,16 @@ def run_one(acc, front, framing, cfg, seq, delivery, record=True):
     elif delivery == 'debris-first':
         # datagram fronts: a truncated datagram arrives first; every later datagram is still a request of its own
         script = [frames[0][:max(1, len(frames[0]) // 2)]] + list(frames)
+    elif delivery.startswith('junk-header'):
+        # TCP streams: an MBAP header announcing no PDU (length 0 or 1) in front of the requests, all in one read.  A
+        # front-end may treat it as a protocol error and close the connection; if it keeps the connection it owes the replies
+        k = int(delivery[-1])
+        script = [b'\x00\x09\x00\x00\x00' + bytes([k]) + b'\x01' * k + whole]
     else:
         script = list(frames)
     writes = conn.run_script(script)
     got = scenario.parse_out(framing, writes)
+    gave_up = delivery.startswith('junk-header') and bool(getattr(conn, 'closed', False))
     srv.shutdown()
     wit = dict(front=front, framing=framing, cfg=[cfg.single, list(cfg.units), cfg.broadcast, cfg.ignore],
                seq=list(seq), delivery=delivery)
@@ -94,6 +100,8 @@ def run_one(acc, front, framing, cfg, seq, delivery, record=True):
         problems.append(('extra', seq[-1]))
     for where, e in srv.escaped:
         problems.append(('escape:' + type(e).__name__, seq[-1]))
+    if gave_up:
+        problems = [p for p in problems if p[0] == 'extra' or p[0].startswith('escape')]
     if record:
         acc.inc('transitions', len(seq))
         acc.inc('evaluations')
@@ -128,6 +136,8 @@ def shard(args):
                 modes = ('per-read',)       # a TLS record is one PDU: no length field to pipeline or split by
             if front in ('sync-tcp', 'sync-serial') and framing != 'tls':
                 modes += ('timeout+split',)
+            if kind == 'stream' and framing == 'tcp' and len(seq) <= 2:
+                modes += ('junk-header0', 'junk-header1')
             for delivery in modes:
                 run_one(acc, front, framing, cfg, seq, delivery)
     # requests of ONE function code with different lengths (FC16 with one and with three registers), mixed with reads
